@@ -55,7 +55,7 @@ func addHeaders(r *http.Request, cfg config.Proxy, stripPath string) error {
 	// set the X-Forwarded-For header for websocket
 	// connections since they aren't handled by the
 	// http proxy which sets it.
-	ws := r.Header.Get("Upgrade") == "websocket"
+	ws := isWebsocket(r)
 	if ws {
 		clientIP := remoteIP
 		// If we aren't the first proxy retain prior
@@ -206,7 +206,7 @@ func scheme(r *http.Request) string {
 		return p[1]
 	}
 
-	ws := r.Header.Get("Upgrade") == "websocket"
+	ws := isWebsocket(r)
 	switch {
 	case ws && r.TLS != nil:
 		return "wss"
@@ -223,12 +223,18 @@ func localPort(r *http.Request) string {
 	if r == nil {
 		return ""
 	}
-	n := strings.Index(r.Host, ":")
-	if n > 0 && n < len(r.Host)-1 {
-		return r.Host[n+1:]
+	// the port of the Host header, also when the host is an IPv6 literal
+	if _, port, err := net.SplitHostPort(r.Host); err == nil && port != "" {
+		return port
 	}
 	if r.TLS != nil {
 		return "443"
 	}
 	return "80"
+}
+
+// isWebsocket tells whether ServeHTTP hands the request to the websocket tunnel.
+func isWebsocket(r *http.Request) bool {
+	upgrade := r.Header.Get("Upgrade")
+	return upgrade == "websocket" || upgrade == "Websocket"
 }
